@@ -54,6 +54,8 @@ ORDER = {
         "forall(x, Layer, implies(x in old(layers), x in result))",               #           nothing lost
         "bases_first(result)",                                                   # never before one of its bases
     ],
+    # proved by the view runner.order_by_bases@unitfirst below (own, smaller invariants); callers may use it
+    'assumed_ensures': ["implies(UnitTests in old(layers), result[0] == UnitTests)"],
     'loops': {
         '#loop1': [
             "forall(p, Int, implies(0 <= p and p < len(gathered), exists(j, Int, 0 <= j and j < _i and isanc(gathered[p], layers[j]))))",
@@ -71,6 +73,81 @@ ORDER = {
             "bases_first(result)",
         ],
     },
+}
+
+ORDER_UNITFIRST = {      # a second contract on the same function: C10 "the unit-test layer comes first"
+    'property': ['C10'],
+    'params': {'layers': 'List[Layer]'},
+    'returns': 'List[Layer]',
+    'requires': ["WF()", "object not in layers"],
+    'modifies': [],
+    'locals': {'gathered': 'List[Layer]', 'seen': 'Dict[Layer,int]', 'result': 'List[Layer]'},
+    'ensures': ["implies(UnitTests in old(layers), result[0] == UnitTests)"],
+    'loops': {
+        '#loop1': [
+            "object not in layers",
+            # the last gathered element belongs to the last layer visited (the one with the least sort key)
+            "implies(_i > 0, len(gathered) > 0 and isanc(gathered[len(gathered) - 1], layers[_i - 1]))",
+        ],
+        '#loop2': [
+            "implies(_i == 0, len(result) == 0)",
+            "implies(_i == 0, forall(x, Layer, x not in seen))",
+            "implies(_i > 0 and gathered[0] in setof(layers), len(result) > 0 and result[0] == gathered[0])",
+        ],
+    },
+}
+
+# ---- layer_sort_key: the sort key as an abstract ordered value (C10) ----------------------------------------------
+# The callers (sorted(..., key=layer_sort_key)) see the key of layer x as lsk(x) : SortKey with a length klen and a
+# last component klast; tuples are ordered lexicographically, of which only "() < any non-empty tuple" is used (T3).
+KEY_FACTS = lambda L, K: [
+    "iff(klen(%s) == 0, %s == UnitTests)" % (K, L),                              # K3: only the unit-test layer has the key ()
+    "implies(%s != UnitTests, klast(%s) == name_from_layer(%s))" % (L, K, L),    # K2: a key ends with the layer's own name
+]
+
+SORT_KEY = {
+    'property': ['C10'],
+    'params': {'layer': 'Layer'},
+    'returns': 'SortKey',
+    'locals': {'seen': 'Set[Layer]', 'key': 'List[Layer]'},
+    'requires': ["WF()", "layer != object"],
+    'modifies': [],
+    'ensures': KEY_FACTS('layer', 'result'),
+    'raises': {},
+    'loops': {
+        # (the loop of the inlined top-level call of _gather) everything gathered so far is a proper base of `layer`
+        '#loop1': ["forall(i, Int, implies(0 <= i and i < len(key), panc(key[i], layer)))",
+                   "forall(x, Layer, implies(x in seen, x == layer or panc(x, layer)))"],
+    },
+    'rules': {"binding['_gather']": {'kind': 'contract', 'qual': 'runner.layer_sort_key._gather'}},
+    'skip_stmts': {"binding['_gather'] = _gather": "self-reference of the closure through a dict; the call "
+                   "binding['_gather'](base) is resolved to the nested function _gather by rule"},
+    'key_model': ('lsk', 'SortKey'),
+    'key_axioms': ["forall(x, Layer, implies(x != object, %s))" % f for f in KEY_FACTS('x', 'lsk(x)')],
+}
+
+GATHER_KEY = {        # the nested function _gather of layer_sort_key, verified as a unit of its own (recursion)
+    'property': ['C10'],
+    'params': {'layer': 'Layer'},
+    'free': {'seen': 'Set[Layer]', 'key': 'List[Layer]'},
+    'requires': ["WF()", "layer != object"],
+    'modifies': ['seen', 'key'],
+    'decreases': "rank(layer)",
+    'ensures': [
+        "len(key) >= old(len(key)) + 1",
+        "key[len(key) - 1] == layer",                                             # the layer itself comes last
+        "forall(i, Int, implies(0 <= i and i < old(len(key)), key[i] == old(key)[i]))",
+        "forall(i, Int, implies(old(len(key)) <= i and i < len(key), isanc(key[i], layer)))",
+        "forall(x, Layer, implies(x in seen, old(x in seen) or isanc(x, layer)))",
+    ],
+    'raises': {},
+    'loops': {
+        '#loop1': ["len(key) >= old(len(key))",
+                   "forall(i, Int, implies(0 <= i and i < old(len(key)), key[i] == old(key)[i]))",
+                   "forall(i, Int, implies(old(len(key)) <= i and i < len(key), panc(key[i], layer)))",
+                   "forall(x, Layer, implies(x in seen, old(x in seen) or isanc(x, layer)))"],
+    },
+    'rules': {"binding['_gather']": {'kind': 'contract', 'qual': 'runner.layer_sort_key._gather'}},
 }
 
 HANDLE_FAILURE = {
@@ -318,6 +395,69 @@ def setup_effect(E, st, exc):
 HOOK_RAISES = ['NotImplementedError', 'OtherException', 'MemoryError', 'OtherBase']
 
 
+def key_abstraction(E, st, res):
+    """the concrete key (a tuple of names) seen as an abstract SortKey: same length, same last component"""
+    from pyvc.vals import usort, fresh_name
+    h = st.heap[res.rid]
+    SK, Str = usort('SortKey'), usort('Str')
+    klen = z3.Function('klen', SK, z3.IntSort())
+    klast = z3.Function('klast', SK, Str)
+    kz = z3.Const(fresh_name('key'), SK)
+    st.assume(klen(kz) == h.n)
+    if h.et is not None:
+        st.assume(z3.Implies(h.n > 0, klast(kz) == z3.Select(h.arr, h.n - 1)))
+    return VObj('SortKey', kz)
+
+
+def register_sort_key(E):
+    from pyvc.vals import usort
+    if ('sortkey',) in E.added_axioms:
+        return
+    E.added_axioms.add(('sortkey',))
+    SK, Str, Layer = usort('SortKey'), usort('Str'), usort('Layer')
+    klen = z3.Function('klen', SK, z3.IntSort())
+    klast = z3.Function('klast', SK, Str)
+    lsk = z3.Function('lsk', Layer, SK)
+    UT = z3.Const('UnitTestsLayer', Layer)
+    OBJ = z3.Const('OBJ', Layer)
+    bases_arr = z3.Function('bases_arr', Layer, z3.ArraySort(z3.IntSort(), Layer))
+    nb = z3.Function('nb', Layer, z3.IntSort())
+    E.need_order('SortKey')
+    lt = z3.Function('lt_SortKey', SK, SK, z3.BoolSort())
+    a, b = z3.Consts('ka kb', SK)
+    i = z3.Int('i')
+    E.axioms += [
+        z3.ForAll([a], klen(a) >= 0),
+        # T3 (Python tuple comparison): the empty tuple is smaller than every non-empty tuple
+        z3.ForAll([a, b], z3.Implies(z3.And(klen(a) == 0, klen(b) > 0), lt(a, b))),
+        UT != OBJ,
+    ]
+    # `class UnitTests:` in layer.py declares no base class (decided on the real source): its only base is object
+    tree = E.module('layer')[0]
+    cls = [n for n in tree.body if isinstance(n, __import__('ast').ClassDef) and n.name == 'UnitTests']
+    plain = bool(cls) and not cls[0].bases and not any(
+        isinstance(n, __import__('ast').Assign) and any(getattr(t, 'id', None) == '__bases__' for t in n.targets)
+        for n in cls[0].body)
+    E.syntactic_obligation("layer.UnitTests declares no base class (its only base is object)", plain,
+                           props=('C10',))
+    if plain:
+        E.axioms.append(z3.ForAll([i], z3.Implies(z3.And(0 <= i, i < nb(UT)), z3.Select(bases_arr(UT), i) == OBJ)))
+    E.globals['runner.UnitTests'] = lambda eng, st: VObj('Layer', UT)
+    E.specfuncs.update({
+        'klen': lambda eng, st, kk: VInt(klen(kk.z)),
+        'klast': lambda eng, st, kk: VObj('Str', klast(kk.z)),
+        'lsk': lambda eng, st, l: VObj('SortKey', lsk(l.z)),
+        'name_from_layer': lambda eng, st, l: eng.uf('fn_name_from_layer', [l], ('obj', 'Str')),
+    })
+    SORT_KEY['result_abs'] = key_abstraction
+    E.assumptions += [
+        "T3: tuples compare lexicographically; used: () < every non-empty tuple (sort keys as an abstract ordered sort)",
+        "T4: sorted(xs, key=f, reverse=True) returns a permutation of xs in non-increasing key order; layer_sort_key is a "
+        "pure function of the layer (reads only __bases__ and name_from_layer), so its proved postconditions hold for the "
+        "key of every element",
+    ]
+
+
 def register(E):
     E.load_sidecar(os.path.join(HERE, 'common.py'))
     E.load_sidecar(os.path.join(HERE, 'vocab_layers.py'))
@@ -328,8 +468,12 @@ def register(E):
                          "they do not raise the runner's own EndRun/CanNotTearDown and cannot reach setup_layers "
                          "(A-HOOKFRAME)")
     del TEARDOWN['rules']['CanNotTearDown']
+    register_sort_key(E)
+    E.add_contract('runner.layer_sort_key', SORT_KEY)
+    E.add_contract('runner.layer_sort_key._gather', GATHER_KEY)
     E.add_contract('runner.gather_layers', GATHER)
     E.add_contract('runner.order_by_bases', ORDER)
+    E.add_contract('runner.order_by_bases@unitfirst', ORDER_UNITFIRST)
     E.add_contract('runner.handle_layer_failure', HANDLE_FAILURE)
     E.add_contract('runner.setup_layer', SETUP)
     E.add_contract('runner.tear_down_unneeded', TEARDOWN)
